@@ -22,3 +22,207 @@ fn c04_overlaps_key() {
     kani::cover!(got, "overlap reachable");
     kani::cover!(!got, "non-overlap reachable");
 }
+
+fn put32(v: &mut Vec<u8>, big: bool, x: u32) {
+    let b = if big { x.to_be_bytes() } else { x.to_le_bytes() };
+    v.extend_from_slice(&b);
+}
+fn put64(v: &mut Vec<u8>, big: bool, x: u64) {
+    let b = if big { x.to_be_bytes() } else { x.to_le_bytes() };
+    v.extend_from_slice(&b);
+}
+fn put16(v: &mut Vec<u8>, big: bool, x: u16) {
+    let b = if big { x.to_be_bytes() } else { x.to_le_bytes() };
+    v.extend_from_slice(&b);
+}
+fn endian(big: bool) -> Endianness {
+    if big { Endianness::Big } else { Endianness::Little }
+}
+
+// @harness c10_leaf_item_decode
+// @props C10
+// @tier quick
+// @kind core
+// @timeout 600
+// @mem 12
+// @functions bbiread::CirTreeLeafItemIterator::next
+// @bounds 2 leaf items (64 bytes), every field full width, byte order symbolic
+// @witness cover: both byte orders
+#[kani::proof]
+#[kani::unwind(4)]
+fn c10_leaf_item_decode() {
+    let big: bool = kani::any();
+    let (c1, s1, c2, e2): (u32, u32, u32, u32) = (kani::any(), kani::any(), kani::any(), kani::any());
+    let (off, sz): (u64, u64) = (kani::any(), kani::any());
+    let (c1b, s1b, c2b, e2b): (u32, u32, u32, u32) = (kani::any(), kani::any(), kani::any(), kani::any());
+    let (offb, szb): (u64, u64) = (kani::any(), kani::any());
+    let mut bytes: Vec<u8> = Vec::with_capacity(64);
+    put32(&mut bytes, big, c1); put32(&mut bytes, big, s1); put32(&mut bytes, big, c2); put32(&mut bytes, big, e2);
+    put64(&mut bytes, big, off); put64(&mut bytes, big, sz);
+    put32(&mut bytes, big, c1b); put32(&mut bytes, big, s1b); put32(&mut bytes, big, c2b); put32(&mut bytes, big, e2b);
+    put64(&mut bytes, big, offb); put64(&mut bytes, big, szb);
+    let mut it = CirTreeLeafItemIterator { endianness: endian(big), i: 0, count: 2, bytes };
+    let a = it.next();
+    let b = it.next();
+    let c = it.next();
+    let ok_a = match a { Some(x) => x.start_chrom_ix == c1 && x.start_base == s1 && x.end_chrom_ix == c2 && x.end_base == e2 && x.data_offset == off && x.data_size == sz, None => false };
+    let ok_b = match b { Some(x) => x.start_chrom_ix == c1b && x.start_base == s1b && x.end_chrom_ix == c2b && x.end_base == e2b && x.data_offset == offb && x.data_size == szb, None => false };
+    assert!(ok_a, "[leaf0] first leaf item decoded wrongly");
+    assert!(ok_b, "[leaf1] second leaf item decoded wrongly");
+    assert!(c.is_none(), "[leaf_end] iterator yields more items than the node holds");
+    kani::cover!(big, "big endian");
+    kani::cover!(!big, "little endian");
+    core::mem::forget(it);
+}
+
+// @harness c10_nonleaf_item_decode
+// @props C10
+// @tier quick
+// @kind core
+// @timeout 600
+// @mem 12
+// @functions bbiread::CirTreeNonLeafItemsIterator::next
+// @bounds 2 non-leaf items (48 bytes), every field full width, byte order symbolic
+// @witness cover: both byte orders
+#[kani::proof]
+#[kani::unwind(4)]
+fn c10_nonleaf_item_decode() {
+    let big: bool = kani::any();
+    let (c1, s1, c2, e2): (u32, u32, u32, u32) = (kani::any(), kani::any(), kani::any(), kani::any());
+    let off: u64 = kani::any();
+    let (c1b, s1b, c2b, e2b): (u32, u32, u32, u32) = (kani::any(), kani::any(), kani::any(), kani::any());
+    let offb: u64 = kani::any();
+    let mut bytes: Vec<u8> = Vec::with_capacity(48);
+    put32(&mut bytes, big, c1); put32(&mut bytes, big, s1); put32(&mut bytes, big, c2); put32(&mut bytes, big, e2);
+    put64(&mut bytes, big, off);
+    put32(&mut bytes, big, c1b); put32(&mut bytes, big, s1b); put32(&mut bytes, big, c2b); put32(&mut bytes, big, e2b);
+    put64(&mut bytes, big, offb);
+    let mut it = CirTreeNonLeafItemsIterator { endianness: endian(big), i: 0, count: 2, bytes };
+    let a = it.next();
+    let b = it.next();
+    let c = it.next();
+    let ok_a = match a { Some(x) => x.start_chrom_ix == c1 && x.start_base == s1 && x.end_chrom_ix == c2 && x.end_base == e2 && x.node_offset == off, None => false };
+    let ok_b = match b { Some(x) => x.start_chrom_ix == c1b && x.start_base == s1b && x.end_chrom_ix == c2b && x.end_base == e2b && x.node_offset == offb, None => false };
+    assert!(ok_a, "[nonleaf0] first non-leaf item decoded wrongly");
+    assert!(ok_b, "[nonleaf1] second non-leaf item decoded wrongly (24-byte stride)");
+    assert!(c.is_none(), "[nonleaf_end] iterator yields more items than the node holds");
+    kani::cover!(big, "big endian");
+    kani::cover!(!big, "little endian");
+    core::mem::forget(it);
+}
+
+fn key(c: u32, b: u32) -> u64 { ((c as u64) << 32) | (b as u64) }
+
+// @harness c04_nodes_overlapping_leaf
+// @props C04 C05 C10
+// @tier quick
+// @kind core
+// @timeout 600
+// @mem 12
+// @functions bbiread::nodes_overlapping (Leaf arm, instantiated with array iterators), bbiread::overlaps
+// @bounds 2 leaf children with arbitrary spans/offsets (full width), arbitrary query. (3 children: the SmallVec inline/heap union with a symbolic length exceeds 40 GB in propositional reduction - measured - so the claim is per pair of adjacent children)
+// @witness cover: both selected; none selected; only the second selected
+#[kani::proof]
+#[kani::unwind(4)]
+fn c04_nodes_overlapping_leaf() {
+    let (q, qs, qe): (u32, u32, u32) = (kani::any(), kani::any(), kani::any());
+    let mk = || CirTreeNodeLeaf { start_chrom_ix: kani::any(), start_base: kani::any(), end_chrom_ix: kani::any(), end_base: kani::any(), data_offset: kani::any(), data_size: kani::any() };
+    let (l0, l1) = (mk(), mk());
+    let want = |l: &CirTreeNodeLeaf| key(q, qs) <= key(l.end_chrom_ix, l.end_base) && key(q, qe) >= key(l.start_chrom_ix, l.start_base);
+    let (w0, w1) = (want(&l0), want(&l1));
+    let iter: CirTreeNodeIterator<core::array::IntoIter<CirTreeNodeLeaf, 2>, core::iter::Empty<CirTreeNodeNonLeaf>> =
+        CirTreeNodeIterator::Leaf([l0, l1].into_iter());
+    let (children, blocks) = nodes_overlapping(iter, q, qs, qe);
+    assert!(children.is_empty(), "[leaf_no_children] a leaf node yields child nodes");
+    let n = (w0 as usize) + (w1 as usize);
+    assert!(blocks.len() == n, "[leaf_count] number of selected blocks differs from the overlap spec");
+    let mut k = 0;
+    if w0 { assert!(blocks[k].offset == l0.data_offset && blocks[k].size == l0.data_size, "[leaf_sel0] wrong block or order"); k += 1; }
+    if w1 { assert!(blocks[k].offset == l1.data_offset && blocks[k].size == l1.data_size, "[leaf_sel1] wrong block or order"); k += 1; }
+    let c1 = w0 & w1;
+    kani::cover!(c1, "both selected");
+    kani::cover!(n == 0, "none selected");
+    let c3 = !w0 & w1;
+    kani::cover!(c3, "only the second selected");
+}
+
+// @harness c04_nodes_overlapping_nonleaf
+// @props C04 C05 C10
+// @tier quick
+// @kind core
+// @timeout 600
+// @mem 12
+// @functions bbiread::nodes_overlapping (NonLeaf arm, instantiated with array iterators), bbiread::overlaps
+// @bounds 2 non-leaf children with arbitrary spans/offsets (full width), arbitrary query (see c04_nodes_overlapping_leaf for why 2)
+// @witness cover: both selected; none selected
+#[kani::proof]
+#[kani::unwind(4)]
+fn c04_nodes_overlapping_nonleaf() {
+    let (q, qs, qe): (u32, u32, u32) = (kani::any(), kani::any(), kani::any());
+    let mk = || CirTreeNodeNonLeaf { start_chrom_ix: kani::any(), start_base: kani::any(), end_chrom_ix: kani::any(), end_base: kani::any(), node_offset: kani::any() };
+    let (l0, l1) = (mk(), mk());
+    let want = |l: &CirTreeNodeNonLeaf| key(q, qs) <= key(l.end_chrom_ix, l.end_base) && key(q, qe) >= key(l.start_chrom_ix, l.start_base);
+    let (w0, w1) = (want(&l0), want(&l1));
+    let iter: CirTreeNodeIterator<core::iter::Empty<CirTreeNodeLeaf>, core::array::IntoIter<CirTreeNodeNonLeaf, 2>> =
+        CirTreeNodeIterator::NonLeaf([l0, l1].into_iter());
+    let (children, blocks) = nodes_overlapping(iter, q, qs, qe);
+    assert!(blocks.is_empty(), "[nonleaf_no_blocks] a non-leaf node yields data blocks");
+    let n = (w0 as usize) + (w1 as usize);
+    assert!(children.len() == n, "[nonleaf_count] number of selected children differs from the overlap spec");
+    let mut k = 0;
+    if w0 { assert!(children[k] == l0.node_offset, "[nonleaf_sel0] wrong child or order"); k += 1; }
+    if w1 { assert!(children[k] == l1.node_offset, "[nonleaf_sel1] wrong child or order"); k += 1; }
+    let c1 = w0 & w1;
+    kani::cover!(c1, "both selected");
+    kani::cover!(n == 0, "none selected");
+}
+
+// @harness c10_read_node_nonleaf_last_in_file
+// @props C10
+// @tier quick
+// @kind core
+// @timeout 900
+// @mem 16
+// @functions bbiread::read_node, bbiread::cir_tree_non_leaf_items, CirTreeNonLeafItemsIterator::next (over std::io::Cursor<Vec<u8>>)
+// @bounds a non-leaf index node with 2 children (4+48 bytes) that is the LAST thing in the file (node placement is free in the format); fields full width; byte order symbolic
+// @stubs alloc::fmt::format -> empty string
+// @witness cover: both byte orders
+#[kani::proof]
+#[kani::unwind(5)]
+#[kani::stub(alloc::fmt::format, crate::verif_support::fake_format)]
+fn c10_read_node_nonleaf_last_in_file() {
+    let big: bool = kani::any();
+    let (c1, s1, c2, e2): (u32, u32, u32, u32) = (kani::any(), kani::any(), kani::any(), kani::any());
+    let off: u64 = kani::any();
+    let (c1b, s1b, c2b, e2b): (u32, u32, u32, u32) = (kani::any(), kani::any(), kani::any(), kani::any());
+    let offb: u64 = kani::any();
+    let mut bytes: Vec<u8> = Vec::with_capacity(52);
+    bytes.push(0); // isLeaf = 0
+    bytes.push(0); // reserved
+    put16(&mut bytes, big, 2);
+    put32(&mut bytes, big, c1); put32(&mut bytes, big, s1); put32(&mut bytes, big, c2); put32(&mut bytes, big, e2);
+    put64(&mut bytes, big, off);
+    put32(&mut bytes, big, c1b); put32(&mut bytes, big, s1b); put32(&mut bytes, big, c2b); put32(&mut bytes, big, e2b);
+    put64(&mut bytes, big, offb);
+    let mut cur = std::io::Cursor::new(bytes);
+    let r = read_node(&mut cur, 0, endian(big));
+    let (ok, a, b, c) = match r {
+        Ok(CirTreeNodeIterator::NonLeaf(mut it)) => {
+            let a = it.next();
+            let b = it.next();
+            let c = it.next();
+            core::mem::forget(it);
+            (1u8, a, b, c)
+        }
+        Ok(CirTreeNodeIterator::Leaf(it)) => { core::mem::forget(it); (2u8, None, None, None) }
+        Err(e) => { core::mem::forget(e); (0u8, None, None, None) }
+    };
+    assert!(ok != 0, "[node_read] a well-formed non-leaf node at the end of the file cannot be read (over-read)");
+    assert!(ok == 1, "[node_kind] non-leaf node decoded as leaf");
+    let ok_a = match a { Some(x) => x.start_chrom_ix == c1 && x.start_base == s1 && x.end_chrom_ix == c2 && x.end_base == e2 && x.node_offset == off, None => false };
+    let ok_b = match b { Some(x) => x.start_chrom_ix == c1b && x.start_base == s1b && x.end_chrom_ix == c2b && x.end_base == e2b && x.node_offset == offb, None => false };
+    assert!(ok_a && ok_b && c.is_none(), "[node_items] non-leaf children decoded wrongly");
+    kani::cover!(big, "big endian");
+    kani::cover!(!big, "little endian");
+    core::mem::forget(cur);
+}
